@@ -163,9 +163,14 @@ class Agent(object):
             return self._call(fn, unstable, *args)
         c = cands[k]
         self.edge_moved += 1
+        # alternate between the two ends of guest memory: the object ends at the last byte, or starts at address 0 (a valid
+        # guest address that C code may mistake for a null pointer)
+        bottom = ((self.edge_mode + self.edge_calls) // (len(cands) + 1)) % 2 == 1
         if c[0] == 'obj':
             _, ai, ln, direction = c
             low, top = args[ai], memsize - ln
+            if bottom and ln <= 0x800:
+                top = 0
             if 'i' in direction:
                 self.poke(top, self.peek(low, ln))
             else:
@@ -178,6 +183,8 @@ class Agent(object):
             return r
         _, ai, i, (bptr, blen), direction = c
         top = memsize - blen
+        if bottom and blen <= 0x800:
+            top = 0
         if 'i' in direction:
             self.poke(top, self.peek(bptr, blen))
         else:
